@@ -77,6 +77,10 @@ func gen(t *rapid.T) Case {
 		c.Kind = "geom"
 		g := vkit.GenGJ(t, vkit.GeomOpts{Types: append([]string{"Bounds"}, vkit.AllSeven...), MaxDepth: rapid.IntRange(0, 2).Draw(t, "depth"),
 			MinMembers: 0, MaxMembers: 3, MaxPts: 3, Coord: rapid.Float64Range(-100, 100)})
+		if rapid.IntRange(0, 19).Draw(t, "deep") == 7 {
+			// inside 15 to 66 nested collections
+			g = vkit.WrapDeep(g, rapid.SampledFrom([]int{16, 16, 32, 64}).Draw(t, "deepn")+rapid.IntRange(-1, 2).Draw(t, "deepoff"), rapid.Uint64().Draw(t, "deeppat"))
+		}
 		c.G = &g
 		for i := range c.Aff {
 			c.Aff[i] = float64(rapid.IntRange(-3, 3).Draw(t, "aff"))
